@@ -1,0 +1,25 @@
+//! Observation / failpoint hooks for external runtime monitors.
+//!
+//! Compiled only with the off-by-default `verif_hooks` cargo feature. A monitor
+//! installs one process-wide callback (once); the library calls [`point`] with a
+//! static site name at a few places around the lazily initialised global
+//! registries. The callback slot is a `OnceLock`, so reading it adds no
+//! synchronisation between the threads that pass a point.
+
+use std::sync::OnceLock;
+
+static CALLBACK: OnceLock<fn(&'static str)> = OnceLock::new();
+
+/// Installs the process-wide hook callback. Returns `false` if one was already
+/// installed.
+pub fn install(callback: fn(&'static str)) -> bool {
+    CALLBACK.set(callback).is_ok()
+}
+
+/// Called by the library at an instrumented site.
+#[inline]
+pub fn point(name: &'static str) {
+    if let Some(callback) = CALLBACK.get() {
+        callback(name);
+    }
+}
